@@ -41,8 +41,8 @@ ASSUMPTIONS = [
 ]
 
 LANGS = ["c", "cpp", "py"]
-SCALARS = [".h", ".hpp", "x", 0, 1, 2, True, False, "little", "any", "c++14", "c++17", "c++17-pmr", "c++20", "", "true"]
-TOP_KEYS = ["extension", "options", "named_types", "custom_key", "custom_map", "limit_empty_lines", "trim_trailing_whitespace", "named_values", "defaults"]
+SCALARS = [".h", ".hpp", "x", 0, 1, 2, True, False, "little", "any", "c++14", "c++17", "c++17-pmr", "c++20", "", "true", None, None]
+TOP_KEYS = ["extension", "options", "named_types", "custom_key", "custom_map", "limit_empty_lines", "trim_trailing_whitespace", "named_values", "defaults", "stropping_suffix", "stropping_prefix"]
 OPT_KEYS = ["target_endianness", "enable_serialization_asserts", "omit_float_serialization_support", "std", "custom_opt", "nested_opt", "cast_format", "enable_override_variable_array_capacity"]
 SUB_KEYS = ["a", "b", "boolean", "byte", "deep"]
 
@@ -479,7 +479,8 @@ def run_case(case: dict, ctx: dict) -> dict:
             if isinstance(val_rt, (dict, list)):
                 handed_in.append(("override-value", val_rt, unwrap(copy.deepcopy(val_rt))))
             bld.set_target_language_configuration_override(op["key"], val_rt)
-            mdl.overrides[op["key"]] = op["value"]
+            if op["value"] is not None:  # (None means "not given": the CLI passes absent options this way)
+                mdl.overrides[op["key"]] = op["value"]
             touched[(b, op["key"])] = touched.get((b, op["key"]), 0) + 1
             trace.append("override(b%d,%s:%s)" % (b, op["key"], shape(op["value"])))
             bump("ops", "override")
